@@ -61,7 +61,7 @@ func (g *Gen) faultyBody(ups []string, depth int) []L.Stmt {
 	var ss []L.Stmt
 	n := 2 + g.n(4, "fbn")
 	for i := 0; i < n; i++ {
-		switch g.n(14, "fbkind") {
+		switch g.n(15, "fbkind") {
 		case 12:
 			// the failing function is reached through a table field whose name is unusual text (the call site's name ends
 			// up in tracebacks and messages)
@@ -113,6 +113,24 @@ func (g *Gen) faultyBody(ups []string, depth int) []L.Stmt {
 			// inside a function called through a host function (Go re-entry)
 			g.class("err:through_host_call")
 			ss = append(ss, emit(call(name("hostcall"), fn([]string{"p"}, false, blk(g.siteStmt(), ret(name("p"), str("from callback")))), num(7))))
+		case 14:
+			// the protecting or re-entering host function is reached through an expression that has no name (a table slot, a
+			// call result, a parenthesised or logical expression)
+			g.class("err:host_function_called_through_unnamed_expression")
+			f := fn(nil, false, blk(g.siteStmt(), ret(str("unnamed ok"))))
+			ss = append(ss, local1("hs", tbl(pos(name("pcall")), pos(name("hostpcall")), pos(name("hostcall")), pos(name("select")))))
+			switch g.n(5, "unnamedcall") {
+			case 0:
+				ss = append(ss, emit(str("slot"), call(idx(name("hs"), num(1)), f)))
+			case 1:
+				ss = append(ss, emit(str("slot 2"), call(idx(name("hs"), num(2)), f)))
+			case 2:
+				ss = append(ss, emit(str("call result"), call(call(paren(fn(nil, false, blk(ret(name("pcall")))))), f)))
+			case 3:
+				ss = append(ss, emit(str("logical"), call(paren(bin("or", &L.FalseExpr{}, name("pcall"))), f)))
+			default:
+				ss = append(ss, emit(str("nested slots"), call(idx(name("hs"), num(1)), idx(name("hs"), num(3)), f)))
+			}
 		case 11:
 			// inside a coroutine driven by the host through the Go API (NewThread + Resume until it is dead)
 			g.class("err:in_host_resumed_coroutine")
